@@ -71,6 +71,11 @@ type c16BufSpec struct {
 	ErrWithData bool // reader / reader-at: the failing call also returns the bytes in front of FailAt
 	EOFMix      bool // reader: last data read returns (n, io.EOF)
 	Own         *c16HandlerSpec
+	// Cloned: the replacement is one handle of a stream-clone pair whose
+	// sibling is drained by another goroutine (what a replicating backend
+	// hands out). Only drawn for intact, non-failing replacements of
+	// transfers that are consumed to the end.
+	Cloned bool
 }
 
 func (b *c16BufSpec) String() string {
@@ -95,6 +100,9 @@ func (b *c16BufSpec) String() string {
 	}
 	if b.Own != nil {
 		s += " own-handler"
+	}
+	if b.Cloned {
+		s += " stream-clone"
 	}
 	return s
 }
@@ -251,6 +259,8 @@ type c16Handler struct {
 type c16Run struct {
 	c       *sim.RunCtx
 	cs      *c16Case
+	s        *rt.Sched // set while a random case runs: replacements may have siblings
+	siblings int
 	content []byte
 	dg      digest.Digest
 	source  buffer.Source
@@ -425,6 +435,16 @@ func (r *c16Run) build(spec *c16BufSpec, provider *c16Handler) buffer.Buffer {
 		r.attaching++
 		b = buffer.WithErrorHandler(b, own)
 		r.attaching--
+	}
+	if spec.Cloned && r.s != nil {
+		b1, b2 := b.CloneStream()
+		b = b1
+		r.siblings++
+		r.s.Go("replacement-sibling", func() {
+			defer func() { r.siblings-- }()
+			b2.IntoWriter(io.Discard)
+		})
+		r.c.Count("probe_replacement_is_stream_clone", 1)
 	}
 	return b
 }
@@ -688,6 +708,10 @@ func c16DrawBuf(c *sim.RunCtx, cs *c16Case, repl bool, depth int, trusted bool) 
 	if repl && depth < 3 && b.Kind != c16KReaderAt && cs.OwnNum > 0 && t.Chance(cs.OwnNum, 6) {
 		b.Own = &c16HandlerSpec{Lazy: true}
 	}
+	if repl && (b.Kind == c16KChunk || b.Kind == c16KReader) && b.FailAt < 0 && b.Wrong == c16WNone && b.Own == nil &&
+		cs.Stop < 0 && cs.SinkFail < 0 && (cs.Cons == consReader || cs.Cons == consChunkReader || cs.Cons == consIntoWriter) && t.Chance(1, 3) {
+		b.Cloned = true
+	}
 	return b
 }
 
@@ -910,7 +934,10 @@ func (r *c16Run) describe() string {
 func runC16Case(c *sim.RunCtx, cs *c16Case, readerAtProfile bool) {
 	r := newC16Run(c, cs)
 	c.Sim(sim.SimOpts{MaxSteps: 200000, DeadlockClass: "deadlock"}, func(s *rt.Sched) {
+		r.s = s
 		r.exec()
+		s.WaitUntil("replacement siblings", func() bool { return r.siblings == 0 })
+		r.s = nil
 	})
 	if c.Failed() {
 		return
